@@ -252,6 +252,19 @@ class Subst(ast.NodeTransformer):
         return copy.deepcopy(self.m[n.id]) if n.id in self.m else n
 
 
+class Rewrite(ast.NodeTransformer):
+    """replace sub-expressions by their known equals: {unparsed text: expr}"""
+
+    def __init__(self, m):
+        self.m = m
+
+    def visit_Attribute(self, n):
+        t = unparse(n)
+        if t in self.m and isinstance(n.ctx, ast.Load):
+            return copy.deepcopy(self.m[t])
+        return self.generic_visit(n)
+
+
 def bind_args(fn, call, kind):
     """parameter name -> actual argument ast (defaults used for missing ones)"""
     params = [a.arg for a in fn.args.args]
@@ -435,8 +448,11 @@ class RBE:
                         if s2['raises']:
                             facts = self.facts_at(cls, def_cls, fn, g, n)
                             m = bind_args(f2, c, sc[0])
+                            rw = self.rewrites_at(cls, def_cls, fn, g, n)
                             for rs in s2['raises']:
                                 conds = [(Subst(m).visit(copy.deepcopy(cd)), tr) for (cd, tr) in rs.conds]
+                                if rw:
+                                    conds = [(Rewrite(rw).visit(canon(self.prog, cls, cd)), tr) for (cd, tr) in conds]
                                 if not self.feasible(facts, conds):
                                     self.filtered.append(f'{def_cls}.{fn.name}:{c.lineno} -> {rs.where}: {rs.text}')
                                     continue
@@ -464,9 +480,87 @@ class RBE:
                 if not cur_known or (out is not None and cur is None):
                     dirty[s.id] = out
                     work.append(s)
-        res = {'raises': raises, 'dirty_ret': dirty_ret, 'viol': viol}
+        res = {'raises': raises, 'dirty_ret': dirty_ret, 'viol': viol, 'post_eq': self._post_equalities(cls, def_cls, fn, g)}
         self.summ[key] = res
         return res
+
+    def _post_equalities(self, cls, def_cls, fn, g):
+        """fields that, on every normal return of fn, hold the value of an expression over fn's parameters:
+        {field: expr}.  `self.F = <expr over parameters>` on every normal path with no later write of F."""
+        params = {a.arg for a in fn.args.args[1:]} | {a.arg for a in fn.args.kwonlyargs}
+        out = {}
+        NORMAL = ('exc', 'raise', 'reraise')
+        for n in g.stmt_nodes():
+            a = n.ast
+            if not (n.kind == 'stmt' and isinstance(a, ast.Assign) and len(a.targets) == 1 and is_self_attr(a.targets[0])):
+                continue
+            names = {x.id for x in ast.walk(a.value) if isinstance(x, ast.Name)}
+            if not names or not names <= params or any(isinstance(x, ast.Call) for x in ast.walk(a.value)):
+                continue
+            F = a.targets[0].attr
+            if g.reaches(g.entry, g.exit, avoid=[n], labels_excluded=NORMAL):
+                continue                    # not on every normal path
+            later = False
+            for nid in g.reachable_from(n):
+                m = g.nodes[nid]
+                if m.ast is None:
+                    continue
+                for x in walk_shallow(m.ast):
+                    if isinstance(x, ast.Attribute) and isinstance(x.ctx, (ast.Store, ast.Del)) and root_name(x) == 'self':
+                        y = x
+                        while isinstance(y.value, ast.Attribute):
+                            y = y.value
+                        if y.attr == F and not (m is n):
+                            later = True
+                    elif isinstance(x, ast.Call):
+                        sc = self_call_kind(x, self.prog)
+                        if sc and sc[1] not in FIRES:
+                            dc, f2 = self._resolve(cls, def_cls, sc)
+                            if f2 is not None and F in self.writes_of(cls, dc.name, f2):
+                                later = True
+                    # a parameter re-assigned later would also break the equality
+                    elif isinstance(x, ast.Name) and isinstance(x.ctx, ast.Store) and x.id in names:
+                        later = True
+            if not later:
+                out[F] = a.value
+        return out
+
+    def rewrites_at(self, cls, def_cls, fn, g, node):
+        """{canonical `self.F` text: expr} established by self/super calls that dominate node, with F not written since"""
+        out = {}
+        for c in g.stmt_nodes():
+            if c is node or c.ast is None or not g.dominates(c, node):
+                continue
+            for call in [x for x in walk_shallow(c.ast) if isinstance(x, ast.Call)]:
+                sc = self_call_kind(call, self.prog)
+                if not sc or sc[1] in FIRES:
+                    continue
+                dc, f2 = self._resolve(cls, def_cls, sc)
+                if f2 is None:
+                    continue
+                s2 = self.summ.get((cls, dc.name, f2.name))
+                if not s2 or not s2.get('post_eq'):
+                    continue
+                m = bind_args(f2, call, sc[0])
+                for F, expr in s2['post_eq'].items():
+                    # F not written between the call and node
+                    clobbered = False
+                    for nid in g.reachable_from(c, avoid=(node,)):
+                        b = g.nodes[nid]
+                        if b.ast is None or not g.reaches(b, node):
+                            continue
+                        for x in walk_shallow(b.ast):
+                            if isinstance(x, ast.Attribute) and isinstance(x.ctx, (ast.Store, ast.Del)) and is_self_attr(x, F):
+                                clobbered = True
+                            elif isinstance(x, ast.Call):
+                                sk = self_call_kind(x, self.prog)
+                                if sk and sk[1] not in FIRES:
+                                    d3, f3 = self._resolve(cls, def_cls, sk)
+                                    if f3 is not None and F in self.writes_of(cls, d3.name, f3):
+                                        clobbered = True
+                    if not clobbered:
+                        out[f'self.{F}'] = Subst(m).visit(copy.deepcopy(expr))
+        return out
 
     @staticmethod
     def feasible(facts: Facts, conds):
